@@ -240,6 +240,42 @@ func enumPairs(tier string, yield func(pairCase) bool) {
 					}
 				}
 			}
+			// polygons with a hole of their own against a base with two holes, in both hole orders: a hole of B may
+			// cover one hole of A while B's body overlaps the other
+			if a.K == exact.KPoly && len(a.Holes) == 2 {
+				var quarter []exact.P
+				for _, p := range even {
+					if p.X%4 == 0 && p.Y%4 == 0 {
+						quarter = append(quarter, p)
+					}
+				}
+				swapped := a
+				swapped.Holes = [][]exact.P{a.Holes[1], a.Holes[0]}
+				rectRing := func(p, q exact.P) []exact.P {
+					return []exact.P{p, {X: q.X, Y: p.Y}, q, {X: p.X, Y: q.Y}, p}
+				}
+				for _, p := range quarter {
+					for _, q := range quarter {
+						if p.X >= q.X || p.Y >= q.Y {
+							continue
+						}
+						for _, hp := range even {
+							for _, hq := range even {
+								if hp.X >= hq.X || hp.Y >= hq.Y || hp.X <= p.X || hp.Y <= p.Y || hq.X >= q.X || hq.Y >= q.Y {
+									continue
+								}
+								if (hq.X-hp.X) > 6 || (hq.Y-hp.Y) > 6 {
+									continue
+								}
+								b := exact.Shape{K: exact.KPoly, Ext: rectRing(p, q), Holes: [][]exact.P{rectRing(hp, hq)}}
+								if !emit(a, b) || !emit(swapped, b) {
+									return
+								}
+							}
+						}
+					}
+				}
+			}
 			if thorough {
 				// three-point polylines on the even lattice
 				for _, p := range even {
